@@ -184,8 +184,19 @@ def coq_build(prop_id, clean=False, timeout=3000):
     with Lock("coq"):
         coq_project()
         if clean:
-            sh("make -f Makefile.coq clean", cwd=COQ)
-            coq_project()
+            # a full rebuild from clean, once per state of the sources (shared by the
+            # thorough runs of all properties through a stamp)
+            h = hashlib.sha1()
+            for f in coq_files():
+                h.update(f.encode()); h.update(open(os.path.join(COQ, f), "rb").read())
+            stamp = os.path.join(BUILD, "clean.stamp")
+            if not (os.path.exists(stamp) and open(stamp).read() == h.hexdigest()):
+                sh("make -f Makefile.coq clean", cwd=COQ)
+                coq_project()
+                rc0, o0, e0, _ = sh(f"make -f Makefile.coq -j{NCPU}", cwd=COQ, timeout=timeout)
+                if rc0 == 0:
+                    with open(stamp, "w") as fh:
+                        fh.write(h.hexdigest())
         cone = coq_cone(target)
         obligations = count_obligations(cone)
         rc, out, err, dt = sh(f"make -f Makefile.coq -j{NCPU} {target[:-2]}.vo", cwd=COQ, timeout=timeout)
@@ -193,11 +204,12 @@ def coq_build(prop_id, clean=False, timeout=3000):
         if rc != 0:
             m = re.search(r'File "\./([^"]+)", line (\d+)', log)
             where = f"{m.group(1)}:{m.group(2)}" if m else "?"
-            # which Qed-closed statements are still fine: everything in files that compiled
+            # which Qed-closed statements are still fine: those of the files make considers up to date
+            sh(f"make -k -f Makefile.coq -j{NCPU} {target[:-2]}.vo", cwd=COQ, timeout=timeout)
             ok = 0
             for f in cone:
-                vo = os.path.join(COQ, f[:-2] + ".vo")
-                if os.path.exists(vo) and os.path.getmtime(vo) >= os.path.getmtime(os.path.join(COQ, f)):
+                rq, _, _, _ = sh(f"make -q -f Makefile.coq {f[:-2]}.vo", cwd=COQ, timeout=120)
+                if rq == 0:
                     ok += count_obligations([f])
             raise Fail("obligation", f"coqc failed at {where}",
                        json.dumps({"obligations": obligations, "discharged": ok, "log": log[-4000:]}))
@@ -215,6 +227,23 @@ def coq_build(prop_id, clean=False, timeout=3000):
                 raise Fail("obligation", f"theorem {th} depends on non-stdlib axiom {a}")
     return dict(obligations=obligations, discharged=obligations, theorems=theorems,
                 axioms=axioms, cone=cone, log=log)
+
+
+def coqchk(prop_id, timeout=6000):
+    """Thorough tier: re-check the property's compiled cone with the independent checker.
+    Returns (ok, axioms_text)."""
+    with Lock("coq"):
+        rc, out, err, dt = sh(f"coqchk -silent -o -Q . KV KV.Properties.{prop_id}", cwd=COQ, timeout=timeout)
+    txt = out + err
+    m = re.search(r"\* Axioms:(.*?)\n\s*\n\* Constants/Inductives relying on type-in-type", txt, re.S)
+    axioms = m.group(1).strip() if m else "?"
+    bad = []
+    for key in ("type-in-type", "unsafe (co)fixpoints", "positivity is assumed"):
+        mm = re.search(re.escape(key) + r":\s*(\S+)", txt)
+        if not (mm and mm.group(1) == "<none>"):
+            bad.append(key)
+    ok = rc == 0 and not bad
+    return ok, axioms, dt, txt[-1500:]
 
 
 def parse_assumptions(out):
